@@ -27,6 +27,10 @@ def gen_workers(rng, nworkers):
     out = []
     for w in range(nworkers):
         ops = []
+        if nworkers > 1 and w == 1 and rng.random() < 0.5:
+            # a long-lived reader: it holds what it read until the very end
+            out.append(["enter"] + ["get " + hx(rng.choice(KEYS)) for _ in range(rng.randrange(3, 9))] + ["leave"])
+            continue
         for cyc in range(rng.choice([1, 1, 2])):
             ops.append("enter")
             for _ in range(rng.randrange(1, 4)):
@@ -60,7 +64,11 @@ def gen_modes(rng, nworkers, n):
     modes = []
     for _ in range(n):
         r = rng.random()
-        if r < 0.55:
+        if r < 0.3:
+            # hand-overs between workers, epoch thread and gc thread at arbitrary points
+            segs = [(rng.randrange(nworkers + 2), rng.randrange(1, 90)) for _ in range(rng.randrange(5, 14))]
+            modes.append("mode script " + " ".join("seg %d:%d" % sg for sg in segs) + " maxsteps 60000")
+        elif r < 0.6:
             w = rng.randrange(nworkers)
             segs = [(w, rng.randrange(2, 8)), (E, rng.randrange(4, 30)), (w, rng.randrange(10, 140)),
                     (E, rng.randrange(1, 12)), (G, rng.randrange(10, 70))]
